@@ -19,7 +19,7 @@ def harness_names(path, prefix):
     return re.findall(r'#\[kani::proof\][^\n]*\n(?:#\[[^\n]*\]\n)*fn (%s\w*)' % prefix, src)
 
 
-def run_kani(harness_file, names, flags=(), timeout=3000, pre_inject=None):
+def run_kani(harness_file, names, flags=(), timeout=1200, pre_inject=None):
     scratch = tempfile.mkdtemp(prefix='espada_kani_')
     try:
         p = subprocess.run(['rsync', '-a', '--exclude', 'target', '--exclude', '.git', REPO.rstrip('/') + '/', scratch + '/'], capture_output=True, text=True)
@@ -34,12 +34,16 @@ def run_kani(harness_file, names, flags=(), timeout=3000, pre_inject=None):
         for n in names:
             cmd += ['--harness', n]
         t0 = time.time()
+        import signal
+        proc = subprocess.Popen(cmd, cwd=scratch, stdout=subprocess.PIPE, stderr=subprocess.PIPE, text=True,
+                                env=dict(os.environ, CARGO_NET_OFFLINE='true'), start_new_session=True)
         try:
-            p = subprocess.run(cmd, cwd=scratch, capture_output=True, text=True, timeout=timeout,
-                               env=dict(os.environ, CARGO_NET_OFFLINE='true'))
+            so, se = proc.communicate(timeout=timeout)
         except subprocess.TimeoutExpired:
+            os.killpg(proc.pid, signal.SIGKILL)   # cargo-kani's cbmc children too
+            proc.communicate()
             raise Undecided('cargo kani timed out after %ds' % timeout)
-        out = p.stdout + '\n' + p.stderr
+        out = so + '\n' + se
         wall = time.time() - t0
     finally:
         shutil.rmtree(scratch, ignore_errors=True)
@@ -79,12 +83,13 @@ def run_card(pid, tier, seed):
     names = harness_names(hf, cfg['prefix'])
     if not names:
         raise Undecided('no harnesses for ' + pid)
-    r = run_kani(hf, names)
+    r = run_kani(hf, names, timeout=600)
     if r['total'] != len(names):
         raise Undecided('kani ran %d harnesses, expected %d' % (r['total'], len(names)))
-    for a, b in r['covers']:
-        if a != b:
-            raise Undecided('vacuous harness: a kani::cover! is unsatisfiable (assumptions exclude everything)')
+    if not r['failed']:
+        for a, b in r['covers']:
+            if a != b:
+                raise Undecided('vacuous harness: a kani::cover! is unsatisfiable (assumptions exclude everything)')
     violations = []
     info = None
     if r['failed']:
